@@ -8,3 +8,6 @@ func verifStatusWrite(_ string, _ int, _ int64, _ int, _ int64, _ string) {}
 
 // verifCrashPoint is a no-op unless built with the "verif" tag (see verif_hooks.go).
 func verifCrashPoint(_ string) {}
+
+// verifIsDead is always false unless built with the "verif" tag (see verif_hooks.go).
+func verifIsDead(_ *Workceptor) bool { return false }
